@@ -104,7 +104,10 @@ Lay(n) == CASE n = 1 -> [ind |-> [i \in 1..9 |-> "  "], sep |-> "\n", sep0 |-> "
             [] n = 4 -> [ind |-> [i \in 1..9 |-> IF i = 1 THEN "" ELSE "\t "], sep |-> "  \n", sep0 |-> " ", tail |-> " "]
             [] n = 5 -> [ind |-> [i \in 1..9 |-> IF i % 3 = 0 THEN "" ELSE "    "], sep |-> "\n", sep0 |-> "\n", tail |-> "\n  "]
             [] n = 6 -> [ind |-> [i \in 1..9 |-> IF i = 2 THEN " \t" ELSE " "], sep |-> " \n\n", sep0 |-> " \n", tail |-> ""]
-Layouts == IF Level = 1 THEN 1..4 ELSE 1..6
+            (* 7: a line holding only spaces and a tab between the statements. The engine may refuse such a tag (it does); if it *)
+            (* accepts it, every offset is still the sum of what precedes it                                                     *)
+            [] n = 7 -> [ind |-> [i \in 1..9 |-> "  "], sep |-> "\n \t \n", sep0 |-> "\n", tail |-> "\n"]
+Layouts == (IF Level = 1 THEN 1..4 ELSE 1..6) \cup {7}
 LayLines(lay, fs) == [i \in 1..Len(fs) |-> [ind |-> lay.ind[i], f |-> fs[i], sep |-> lay.sep]]
 LiquidOf(st, n, fs) == Liquid(st, Lay(n).sep0, LayLines(Lay(n), fs), Lay(n).tail)
 
